@@ -386,6 +386,88 @@ fn c19_d%(idx)d_%(chunk)d() {
 ''' % {'idx': idx, 'chunk': chunk, 'doc': rs_str(doc), 'body': body, 'unw': unwind_for(doc, 4)}
 
 
+SESSION_PRELUDE = r'''
+fn mk_server(text: &str) -> (Server, Url) {
+    let (t, m) = LineMap::normalize(doc_string(text));
+    let mut fs = FileSet::default();
+    fs.insert(FileId(0), VfsPath(7));
+    let vfs = Vfs { files: Slab { entries: vec![Some((Arc::<str>::from(t), Arc::new(m)))] }, local_file_set: fs, change: Change::default() };
+    let mut opened = FxHashMap::default();
+    opened.insert(Url(7), FileData { diagnostics_task: None });
+    (Server { vfs: Arc::new(RwLock::new(vfs)), opened_files: opened, applied: 0, diagnostics_for: Vec::new() }, Url(7))
+}
+fn ch(range: Option<(u32, u32, u32, u32)>, text: &str) -> TextDocumentContentChangeEvent {
+    TextDocumentContentChangeEvent {
+        range: range.map(|(a, b, c, d)| Range::new(Position::new(a, b), Position::new(c, d))),
+        range_length: None,
+        text: doc_string(text),
+    }
+}
+fn notify(uri: &Url, changes: Vec<TextDocumentContentChangeEvent>) -> DidChangeTextDocumentParams {
+    DidChangeTextDocumentParams { text_document: VersionedTextDocumentIdentifier { uri: uri.clone(), version: 2 }, content_changes: changes }
+}
+/// the document is known to the server and has this text
+fn doc_is(srv: &Server, uri: &Url, text: &str) -> bool {
+    let vfs = srv.vfs.read().unwrap();
+    match vfs.file_for_uri(uri) {
+        Ok(f) => &*vfs.content_for_file(f) == text,
+        Err(e) => { std::mem::forget(e); false }
+    }
+}
+/// the document was dropped: neither the file table nor the open-files table knows it any more
+fn doc_forgotten(srv: &Server, uri: &Url) -> bool {
+    let vfs = srv.vfs.read().unwrap();
+    let gone = match vfs.file_for_uri(uri) { Ok(_) => false, Err(e) => { std::mem::forget(e); true } };
+    gone && srv.opened_files.get(uri).is_none()
+}
+'''
+
+# (name, document, [changes as (range | None, text)], expectation: text of the document afterwards, or None = forgotten)
+SESSION_CASES = [
+    ('valid_then_valid', 'a', [((0, 0, 0, 0), 'x'), ((0, 2, 0, 2), 'y')], 'xay'),
+    ('rejected_then_ranged', 'a', [((5, 0, 5, 0), 'x'), ((0, 0, 0, 0), 'y')], None),
+    ('rejected_then_full_text', 'a', [((0, 9, 0, 9), 'x'), (None, 'b')], None),
+    ('valid_then_rejected', 'a', [((0, 1, 0, 1), 'x'), ((0, 1, 0, 0), 'y')], None),
+    ('rejected_alone', 'a\n', [((2, 0, 2, 0), 'x')], None),
+    ('three_changes_middle_rejected', 'a', [(None, 'b'), ((1, 0, 1, 0), 'x'), ((0, 0, 0, 1), '')], None),
+]
+
+
+def h_session(name, doc, changes, expect):
+    chs = ', '.join('ch(%s, %s)' % ('None' if r is None else 'Some((%d, %d, %d, %d))' % r, rs_str(t)) for (r, t) in changes)
+    if expect is None:
+        post = ('    assert!(doc_forgotten(&srv, &uri), "C15: an edit that cannot be applied is dropped and the document forgotten");\n'
+                '    kani::cover!(true, "notification with a rejected change handled to the end");')
+    else:
+        post = ('    assert!(doc_is(&srv, &uri, %s), "C15/C13: applicable changes of one notification are applied in order");\n'
+                '    kani::cover!(true, "notification with applicable changes handled to the end");') % rs_str(expect)
+    return '''
+#[kani::proof]
+#[kani::stub(alloc::fmt::format, stub_fmt)]
+#[kani::stub(alloc::string::String::with_capacity, stub_with_capacity)]
+#[kani::unwind(12)]
+fn c15_session_%(name)s() {
+    let (mut srv, uri) = mk_server(%(doc)s);
+    let r = srv.on_did_change(notify(&uri, vec![%(chs)s]));
+    assert!(matches!(r, ControlFlow::Continue(())), "C15: the notification handler keeps the server loop going");
+    assert!(srv.applied == 1 && srv.diagnostics_for.len() == 1, "the analysis is updated once per notification");
+%(post)s
+}
+''' % {'name': name, 'doc': rs_str(doc), 'chs': chs, 'post': post}
+
+
+def generate_session(tier):
+    """harnesses of the session variant (Server::on_did_change with several changes in one notification)"""
+    import re
+    text = re.sub(r'fn mk_vfs\(text: &str\) -> \(Vfs, FileId\) \{.*?\n\}\n', '', PRELUDE, flags=re.S) + SESSION_PRELUDE
+    hs = []
+    for name, doc, changes, expect in SESSION_CASES:
+        text += h_session(name, doc, changes, expect)
+        hs.append({'name': 'c15_session_%s' % name, 'doc': doc,
+                   'what': 'Server::on_did_change on one notification with the changes %r: handled to the end without panic, document %s' % (changes, 'forgotten' if expect is None else 'becomes %r' % expect)})
+    return text, hs
+
+
 def generate(prop, tier, max_chars=None):
     """-> (harness module text, [{'name', 'doc', 'what'}])"""
     L = max_chars if max_chars is not None else (2 if tier == 'quick' else 3)
